@@ -540,7 +540,13 @@ func appendSnapshotFunctions(b []byte, s *slip.Scope) []byte {
 			}
 		})
 		if 0 < len(fia) {
+			// Macros first, a function that is compiled before a macro it
+			// uses is defined treats the macro call as a function call.
 			sort.Slice(fia, func(i, j int) bool {
+				mi, mj := fia[i].Kind == slip.MacroSymbol, fia[j].Kind == slip.MacroSymbol
+				if mi != mj {
+					return mi
+				}
 				return fia[i].Name < fia[j].Name
 			})
 			b = append(b, '\n')
